@@ -122,5 +122,33 @@ def main():
     print(json.dumps(res, default=str))
 
 
+def _function_coverage(path):
+    """Development aid (VERIF_FUNCCOV=<dir>): records which functions of the analysed repository are entered, through a
+    sys.monitoring tool of its own (independent of CrossHair's).  Not used by the registered commands."""
+    import atexit
+    mon = sys.monitoring
+    tool = 3
+    repo = os.path.realpath(os.environ.get('VERIF_REPO', '/repo')) + os.sep
+    seen = set()
+
+    def on_start(code, offset):
+        fn = code.co_filename
+        if fn.startswith(repo):
+            seen.add((fn[len(repo):], code.co_qualname))
+        return mon.DISABLE
+    mon.use_tool_id(tool, 'vf-funccov')
+    mon.register_callback(tool, mon.events.PY_START, on_start)
+    mon.set_events(tool, mon.events.PY_START)
+
+    def dump():
+        os.makedirs(path, exist_ok=True)
+        name = hashlib.sha1(' '.join(sys.argv[1:]).encode()).hexdigest()[:12]
+        with open(os.path.join(path, name + '.json'), 'w') as f:
+            json.dump({'argv': sys.argv[1:], 'functions': sorted(seen)}, f)
+    atexit.register(dump)
+
+
 if __name__ == '__main__':
+    if os.environ.get('VERIF_FUNCCOV'):
+        _function_coverage(os.environ['VERIF_FUNCCOV'])
     main()
